@@ -36,6 +36,20 @@ Theorem C38_pred : forall res num_chunks ins out,
 Proof. exact pred_holds. Qed.
 Print Assumptions C38_pred.
 
+(* Termination: whenever the batch size len(chks)/numChunks is at least 1, downsampleAggr
+   returns (the loop and the counter iterator inside every part terminate), and then the
+   predicate holds: total correctness on the property's domain. *)
+Theorem C38_terminates : forall res num_chunks ins,
+  (1 <= length ins / num_chunks)%nat -> exists out, downsample_aggr_m res num_chunks ins = Some out.
+Proof. exact aggr_terminates. Qed.
+Print Assumptions C38_terminates.
+
+Theorem C38_pred_total : forall res num_chunks ins,
+  valid_input res num_chunks ins = true ->
+  exists out, downsample_aggr_m res num_chunks ins = Some out /\ pred_ok (CAggr res num_chunks ins out) = true.
+Proof. exact pred_total. Qed.
+Print Assumptions C38_pred_total.
+
 (* Planned as "batch size 0 returns the invalid-range error" (DESIGN C38_error_not_hang);
    the faithful model REFUTES that: with more target chunks than input chunks
    (len(chks)/numChunks = 0) downsampleAggrLoop takes an empty part, which yields a chunk
